@@ -15,7 +15,6 @@ package c02
 
 import (
 	"bytes"
-	"encoding/hex"
 	"fmt"
 	"math/big"
 	"sort"
@@ -718,5 +717,3 @@ func genShared(rt *rapid.T, rec *evid.Recorder, noNegFixed bool) (SharedCase, bo
 	cl = append(cl, fmt.Sprintf("workers:%d", c.Workers))
 	return c, nestedDyn || wide, append(cl, shape...)
 }
-
-var _ = hex.EncodeToString
